@@ -889,6 +889,9 @@ func (u *Unit) loopSpec(n ast.Node) (*LoopSpec, int) {
 	fr := u.top()
 	ord := fr.loopOrd[n]
 	ls := fr.spec.Loops[ord]
+	if ls == nil && ord >= 1000 {
+		ls = fr.spec.Loops[-1] // proof repair: invariants offered to any loop without a baseline counterpart
+	}
 	if ls == nil {
 		ls = &LoopSpec{}
 	}
@@ -985,6 +988,7 @@ func (u *Unit) execFor(st *State, x *ast.ForStmt, label string) []*Out {
 			}
 		case o.kind == oBreak && (o.label == "" || o.label == label):
 			u.loopFrame(o.st, ord, "break", pos)
+			u.loopAnchor(o.st, ord, "break", pos)
 			outs = append(outs, &Out{kind: oNormal, st: o.st})
 		default:
 			outs = append(outs, o)
@@ -1160,6 +1164,7 @@ func (u *Unit) execRange(st *State, x *ast.RangeStmt, label string) []*Out {
 				u.loopFrame(s, ord, "preserve", pos)
 			case o.kind == oBreak && (o.label == "" || o.label == label):
 				u.loopFrame(o.st, ord, "break", pos)
+				u.loopAnchor(o.st, ord, "break", pos)
 				outs = append(outs, &Out{kind: oNormal, st: o.st})
 			default:
 				outs = append(outs, o)
@@ -1255,6 +1260,7 @@ func (u *Unit) execRangeOpaque(st *State, x *ast.RangeStmt, label string, ls *Lo
 			u.loopFrame(o.st, ord, "preserve", pos)
 		case o.kind == oBreak && (o.label == "" || o.label == label):
 			u.loopFrame(o.st, ord, "break", pos)
+			u.loopAnchor(o.st, ord, "break", pos)
 			outs = append(outs, &Out{kind: oNormal, st: o.st})
 		default:
 			outs = append(outs, o)
